@@ -80,6 +80,18 @@ def worlds(tier, focus):
             W.append(('delayed-retry+long-bystanders limit=2 long=%d' % dl,
                       World([Scen('r', 'C', 0, None, budget=1, delay=True, durs=(0, 0), fails=(True, False)), Scen('a', 'C', 0, None, durs=(dl,), fails=(False,)),
                              Scen('b', 'C', 0, None, durs=(dl,), fails=(False,))], 2)))
+    if focus == 'C06':
+        # the slot accounting must balance for EVERY kind of attempt: retried serial attempts (one or two of them) come
+        # first, then more concurrent scenarios than the limit are ready at once and overlap
+        for limit, nser in (((1, 1), (2, 1), (2, 2)) if tier != 'thorough' else ((1, 1), (2, 1), (2, 2), (3, 2))):
+            W.append(('retried-serials-then-overlapping-concurrent limit=%d serials=%d' % (limit, nser),
+                      World([Scen('s%d' % i, 'S', 0, None, budget=1, durs=(0, 0), fails=(True, False)) for i in range(nser)]
+                            + [Scen('a%d' % i, 'C', i % 2, None, durs=(1 + (i % 2),), fails=(False,)) for i in range(limit + nser + 1)], limit)))
+        # the same for a retried CONCURRENT scenario (re-queued at the front) with overlapping bystanders
+        for limit in ((2,) if tier != 'thorough' else (2, 3)):
+            W.append(('retried-concurrent-then-overlapping-concurrent limit=%d' % limit,
+                      World([Scen('r', 'C', 0, None, budget=1, durs=(0, 1), fails=(True, False))]
+                            + [Scen('a%d' % i, 'C', i % 2, None, durs=(2,), fails=(False,)) for i in range(limit + 2)], limit)))
     if focus in ('C04', 'C07', 'C03', 'C05'):
         # lazily delivered features (parser stream Pending `late` polls before an item)
         for late in ((1, 2) if tier != 'thorough' else (1, 2, 3, 5)):
@@ -152,7 +164,7 @@ def run(chk, prop, selected=None):
     ws = worlds(chk.tier, prop)
     if selected is not None:
         ws = [(n, w) for n, w in ws if selected(n, w)]
-    bound = 'the real execute() loop polled to completion (<= 40 polls) over %d worlds: 3-4 scenarios (serial / concurrent, rules, retry budget <= 1), limits 1, 2, unlimited, per-attempt durations 0..2 polls, every outcome assignment (symbolic)' % len(ws)
+    bound = 'the real execute() loop polled to completion (<= 40 polls) over %d worlds: 3-4 scenarios (C06 menu: up to 8; serial / concurrent, rules, retry budget <= 1), limits 1, 2, unlimited, per-attempt durations 0..2 polls, every outcome assignment (symbolic)' % len(ws)
 
     def ob(name):
         if name not in obs:
